@@ -487,10 +487,11 @@ pub fn run(cli: &Cli, prop: &str) -> (Value, Vec<Violation>) {
     if let Some(p) = &cli.replay {
         replay(p, prop);
     }
-    let thorough = cli.thorough();
+    let thorough = cli.level() >= 1;
     let keys = Arc::new(slot_keys());
     let counts = vec![2usize, 2, 2];
-    let states = gen_states(&counts, if thorough { 6 } else { 4 }, if thorough { 400 } else { 60 });
+    let lvl = cli.level().min(2);
+    let states = gen_states(&counts, [4usize, 6, 7][lvl], [60usize, 400, 1500][lvl]);
     let mut cases: Vec<Case> = vec![];
     for (si, (snap, path)) in states.iter().enumerate() {
         let has_mig = snap.to_string().contains("\"is_migrating\":true");
@@ -516,7 +517,7 @@ pub fn run(cli: &Cli, prop: &str) -> (Value, Vec<Violation>) {
         }
     }
     // all 16384 slots on a few layouts
-    let step = (states.len() / if thorough { 12 } else { 2 }).max(1);
+    let step = (states.len() / [2usize, 12, 40][lvl]).max(1);
     for (snap, path) in states.iter().step_by(step) {
         let has_mig = snap.to_string().contains("\"is_migrating\":true");
         cases.push(Case { snap: snap.clone(), path: path.clone(), counts: counts.clone(), limit: 0, compress: false, phase: if has_mig { Phase::C } else { Phase::A }, version: ClusterNodesVersion::V2, all_slots: true, walk: false });
